@@ -35,6 +35,7 @@ package contractcourt
 // (in registration order), then the block beat for the arbitrator.
 
 import (
+	"strings"
 	"crypto/sha256"
 	"encoding/binary"
 	"fmt"
@@ -80,6 +81,7 @@ type zzC13Chain struct {
 	ex *zzC13Exec
 
 	spent     map[wire.OutPoint]*chainntnfs.SpendDetail
+	byRemote  map[wire.OutPoint]bool // spent by a transaction of the counterparty
 	confirmed map[chainhash.Hash]uint32
 	mempool   []*zzC13MTx
 	known     map[chainhash.Hash]bool // ever broadcast
@@ -107,6 +109,7 @@ func zzC13NewChain(ex *zzC13Exec) *zzC13Chain {
 	return &zzC13Chain{
 		ex:        ex,
 		spent:     map[wire.OutPoint]*chainntnfs.SpendDetail{},
+		byRemote:  map[wire.OutPoint]bool{},
 		confirmed: map[chainhash.Hash]uint32{},
 		known:     map[chainhash.Hash]bool{},
 		ourSweeps: map[chainhash.Hash]bool{},
@@ -594,6 +597,9 @@ func (c *zzC13Chain) confirm(tx *wire.MsgTx, who string) []wire.OutPoint {
 			SpenderInputIndex: uint32(i), SpendingHeight: int32(w.height),
 		}
 		ops = append(ops, op)
+		if strings.HasPrefix(who, "remote") {
+			c.byRemote[op] = true
+		}
 		w.logf("chain: %v spent by %s tx %v", op, who, txid)
 	}
 	return ops
@@ -605,7 +611,19 @@ func (c *zzC13Chain) block() {
 	ex, w := c.ex, c.ex.w
 	H := w.height
 	epoch := ex.restarts
-	var newly []wire.OutPoint
+	newly, nos, breachNow := c.advance(true)
+	c.deliver(H, epoch, newly, nos, breachNow)
+}
+
+// advance applies the chain script for the current height: what the
+// counterparty does, which of the node's broadcast transactions confirm, what
+// the rest of the world learns. With nodeUp false the node's process is down
+// (downtime arm): nothing that runs inside that process - its sweeper, the
+// nursery model - acts, and nothing is delivered; a node that comes back finds
+// all of it on the chain.
+func (c *zzC13Chain) advance(nodeUp bool) (newly []wire.OutPoint, nos []int, breachNow bool) {
+	ex, w := c.ex, c.ex.w
+	H := w.height
 
 	// 1. the counterparty
 	sort.SliceStable(c.remote, func(i, j int) bool { return c.remote[i].op.String() < c.remote[j].op.String() })
@@ -618,6 +636,9 @@ func (c *zzC13Chain) block() {
 			continue
 		}
 		newly = append(newly, c.confirm(c.remoteTx(r), "remote "+r.kind)...)
+		if !nodeUp {
+			ex.r.Count("probe_downtime_counterparty_acted_while_down")
+		}
 	}
 	// 2. our transactions
 	sort.SliceStable(c.mempool, func(i, j int) bool { return c.mempool[i].txid.String() < c.mempool[j].txid.String() })
@@ -637,25 +658,30 @@ func (c *zzC13Chain) block() {
 			w.logf("chain: mempool drops %s tx %v (input spent)", m.who, m.txid)
 		case ready:
 			newly = append(newly, c.confirm(m.tx, m.who)...)
+			if !nodeUp {
+				ex.r.Count("probe_downtime_own_tx_confirmed_while_down")
+			}
 		default:
 			keep = append(keep, m)
 		}
 	}
 	c.mempool = keep
-	// 3. what becomes broadcastable with this block
-	c.nurseryTick()
-	for _, req := range c.swLive {
-		c.trySweep(req)
-	}
-	if n := ex.nurse; n != nil && n.proc != nil && n.proc.alive() {
-		for _, req := range n.proc.swLive {
+	// 3. what becomes broadcastable with this block (the sweeper and the
+	// nursery model live inside the node's process)
+	if nodeUp {
+		c.nurseryTick()
+		for _, req := range c.swLive {
 			c.trySweep(req)
+		}
+		if n := ex.nurse; n != nil && n.proc != nil && n.proc.alive() {
+			for _, req := range n.proc.swLive {
+				c.trySweep(req)
+			}
 		}
 	}
 
 	// 4. the rest of the world at this height (state first, deliveries after:
 	// a node that is down during this block finds all of it when it is back)
-	var nos []int
 	for no, at := range c.learnAt {
 		if at <= H && w.m.know[no] == zzKnowNone {
 			nos = append(nos, no)
@@ -665,12 +691,22 @@ func (c *zzC13Chain) block() {
 	for _, no := range nos {
 		w.m.know[no] = zzKnowBeacon
 		w.logf("beacon: preimage of hash%d turns up", no)
+		if !nodeUp {
+			ex.r.Count("probe_downtime_preimage_turned_up_while_down")
+		}
 	}
-	breachNow := c.breachAt != 0 && c.breachAt <= H && !w.breachDone
+	breachNow = c.breachAt != 0 && c.breachAt <= H && !w.breachDone
 	if breachNow {
 		w.breachDone = true
 		w.logf("breach arbitrator: justice served")
 	}
+	return newly, nos, breachNow
+}
+
+// deliver hands the notifications of the block at height H to the node, one
+// at a time. It returns early if the node crashed and was restarted.
+func (c *zzC13Chain) deliver(H uint32, epoch int, newly []wire.OutPoint, nos []int, breachNow bool) {
+	ex, w := c.ex, c.ex.w
 
 	// ---- notifications, one at a time
 	//
